@@ -5,6 +5,7 @@
 #endif
 #define VF_INPUTS(X) X(unsigned char, s, [L + 1])
 #include "vf.h"
+#include "vf_str.h"
 #include "cJSON_Utils.c"
 int main(VF_MAIN_ARGS)
 {
